@@ -20,7 +20,8 @@ RULE = ('M-broker rule-based machine with every valid rule plus invalid requests
         'is identical before and after; any other call that raises must satisfy the same equality. Non-trivial = '
         '>= 3 different refusal kinds in one history, at least one after a fill while an order is pending.'
         ' Round-4/5 reach: refusal kind stale_update (a broker update earlier than the clock of every position-holding portfolio); unsupported currency codes incl. ones differing from a supported code only in case or padding.'
-        " Round-11 reach: rule swap_and_fill followed by a negative-quote / stale update that must be refused.")
+        " Round-11 reach: rule swap_and_fill followed by a negative-quote / stale update that must be refused."
+        " Round-13 reach: refusal kind remark_same_stamp (a mark repeating the last accepted mark time after a deposit moved the portfolio clock on).")
 ASSUMPTIONS = [
     'the portfolio\'s internal clock is not part of the statement\'s list and is not compared',
     'valid broker clock updates never go back in time; the one backwards update generated (stale_update) is earlier than '
